@@ -718,6 +718,16 @@ fn eval_js(sess: &mut Session, text: &str) {
         let got: Vec<_> = second.iter().map(key).collect();
         sess.o();
         // lints that were shadowed by nothing: the JS API removes overlaps BEFORE ignoring, so nothing new may appear
+        // the ignore list stores a hash of (lint, neighbouring tokens) WITHOUT a position: another lint
+        // with the same message on the same flagged text may have the same context and is then hidden
+        // with it, by design (C14's model: contexts, not positions). Such twins may go; nothing else.
+        let src: Vec<char> = text.chars().collect();
+        let flagged = |k: &(usize, usize, String)| -> Vec<char> { src.get(k.0..k.1.min(src.len())).map(|s| s.to_vec()).unwrap_or_default() };
+        let twins_only = got.iter().all(|g| want.contains(g)) && want.iter().filter(|w| !got.contains(w)).all(|w| w.2 == target.2 && flagged(w) == flagged(&target));
+        if got != want && twins_only {
+            sess.count("js:twin-context-hidden-too");
+            continue;
+        }
         if got != want {
             sess.fail("js-ignore-not-exact", format!("ignore_lint({:?}): lint() went from {} lints to {:?}, expected the first result minus that lint: {:?}", target, want.len() + 1, got, want), json!({"kind": "js", "text": text, "index": k}), None);
             return;
